@@ -268,6 +268,8 @@ class MappingStorage:
                     oid=oid, serials=(old_tid, serial), data=data)
 
         self._tdata[oid] = data
+        # new_oid() must never hand out an id that was stored explicitly
+        self._oid = max(self._oid, ZODB.utils.u64(oid))
 
     checkCurrentSerialInTransaction = (
         ZODB.BaseStorage.checkCurrentSerialInTransaction)
